@@ -129,7 +129,72 @@ class DelToPop(ast.NodeTransformer):
         return node
 
 
-KINDS = {"unparse": None, "rename": Renamer, "nestif": NestIf, "passes": Passes,
+class Extract(ast.NodeTransformer):
+    """Extract-method refactoring: a top-level compound statement of a method that contains no
+    return/break/continue/yield and defines no local that is used outside of it is moved into
+    a new private method of the same class, called with the locals it reads."""
+    ONLY = None      # optional set of function names to restrict to
+    SKIP = 0         # extract the (SKIP+1)-th eligible statement of each method
+
+    def visit_ClassDef(self, cls):
+        new_methods = []
+        for fn in list(cls.body):
+            if not isinstance(fn, ast.FunctionDef) or fn.decorator_list or not fn.args.args \
+                    or fn.args.args[0].arg != "self" or fn.name.startswith("__"):
+                continue
+            if self.ONLY and fn.name not in self.ONLY:
+                continue
+            params = {a.arg for a in fn.args.args}
+            skipped = 0
+            for i, st in enumerate(fn.body):
+                if not isinstance(st, (ast.If, ast.For, ast.With, ast.Try)):
+                    continue
+                if any(isinstance(x, (ast.Return, ast.Break, ast.Continue, ast.Yield, ast.YieldFrom,
+                                      ast.Lambda, ast.FunctionDef, ast.NamedExpr))
+                       for x in ast.walk(st)):
+                    continue
+                stored = {x.id for x in ast.walk(st) if isinstance(x, ast.Name) and isinstance(x.ctx, ast.Store)}
+                stored |= {h.name for x in ast.walk(st) if isinstance(x, ast.Try) for h in x.handlers if h.name}
+                others = [o for j, o in enumerate(fn.body) if j != i]
+                used_outside = {x.id for o in others for x in ast.walk(o) if isinstance(x, ast.Name)}
+                if stored & used_outside or stored & params:
+                    continue
+                if skipped < self.SKIP:
+                    skipped += 1
+                    continue
+                loaded = []
+                for x in ast.walk(st):
+                    if isinstance(x, ast.Name) and isinstance(x.ctx, ast.Load) and x.id not in stored \
+                            and x.id != "self" and x.id not in loaded:
+                        # locals/params of the enclosing function only
+                        if x.id in params or any(isinstance(y, ast.Name) and isinstance(y.ctx, ast.Store)
+                                                 and y.id == x.id for y in ast.walk(fn)):
+                            loaded.append(x.id)
+                name = f"_x_{fn.name.strip('_')}_{i}"
+                helper = ast.FunctionDef(
+                    name=name,
+                    args=ast.arguments(posonlyargs=[], args=[ast.arg(arg="self")] + [ast.arg(arg=a) for a in loaded],
+                                       kwonlyargs=[], kw_defaults=[], defaults=[]),
+                    body=[st], decorator_list=[], returns=None, type_params=[])
+                call = ast.Expr(value=ast.Call(
+                    func=ast.Attribute(value=ast.Name(id="self", ctx=ast.Load()), attr=name, ctx=ast.Load()),
+                    args=[ast.Name(id=a, ctx=ast.Load()) for a in loaded], keywords=[]))
+                fn.body[i] = ast.copy_location(call, st)
+                new_methods.append(helper)
+                break       # one extraction per method
+        cls.body.extend(new_methods)
+        return cls
+
+
+class Extract2(Extract):
+    SKIP = 1
+
+
+class Extract3(Extract):
+    SKIP = 2
+
+
+KINDS = {"unparse": None, "extract": Extract, "extract2": Extract2, "extract3": Extract3, "rename": Renamer, "nestif": NestIf, "passes": Passes,
          "flipcmp": FlipCmp, "invertif": InvertIf, "inchain": InChain, "deltopop": DelToPop}
 
 
@@ -137,6 +202,8 @@ def transform(root, kind):
     for dp, dn, fn in os.walk(root):
         for f in fn:
             if not f.endswith(".py"):
+                continue
+            if kind.startswith("extract") and not (os.sep + "node" + os.sep in os.path.join(dp, f) or f in ("_base.py",)):
                 continue
             p = os.path.join(dp, f)
             src = open(p).read()
